@@ -391,13 +391,21 @@ class Parser:
     def parse_prefix_expression(self, stream: TokenStream) -> Expression:
         tok = stream.next_token()
         assert tok.type_ == TokenType.NOT
-        return PrefixExpression(
-            tok,
-            operator="!",
-            right=self.parse_filter_expression(
-                stream, precedence=self.PRECEDENCE_PREFIX
-            ),
-        )
+
+        # `!` negates a parenthesized expression or a test expression only.
+        if stream.current.type_ == TokenType.NOT:
+            raise JSONPathSyntaxError("unexpected '!'", token=stream.current)
+
+        right = self.parse_filter_expression(stream, precedence=self.PRECEDENCE_PREFIX)
+
+        if isinstance(right, FilterExpressionLiteral):
+            raise JSONPathSyntaxError(
+                "filter expression literals outside of "
+                "function expressions must be compared",
+                token=right.token,
+            )
+
+        return PrefixExpression(tok, operator="!", right=right)
 
     def parse_infix_expression(
         self, stream: TokenStream, left: Expression
